@@ -62,11 +62,17 @@ fn quiesce<F: Future>(fut: &mut Pin<&mut F>, flag: &Arc<Flag>, cx: &mut Context<
         }
         n += 1;
         if n > 100_000 {
-            // something wakes itself on every poll: treat as quiescent, the step limit will end the run
-            break;
+            // something wakes itself on every poll: treat as quiescent; three such rounds in a row end the run as a storm
+            SPINS.with(|s| s.set(s.get() + 1));
+            return false;
         }
     }
+    SPINS.with(|s| s.set(0));
     false
+}
+
+thread_local! {
+    static SPINS: std::cell::Cell<usize> = const { std::cell::Cell::new(0) };
 }
 
 /// Drive the combined future `fut`; `script` is consulted at every quiescent point.
@@ -82,7 +88,8 @@ pub fn drive<F: Future>(mut fut: Pin<&mut F>, net: &NetRef, limits: &Limits, mut
             return End::Finished;
         }
         steps += 1;
-        if steps > limits.max_steps {
+        if steps > limits.max_steps || SPINS.with(|s| s.get()) >= 3 {
+            SPINS.with(|s| s.set(0));
             return End::Storm;
         }
         if sim::now_ms() > limits.max_virtual_ms {
